@@ -72,15 +72,32 @@ Definition adjust (now : now_t) (cf : cfmt) (t : ptime) : ptime :=
     mkPtime (if nm <? t_mo t then ny - 1 else ny) (t_mo t) (t_d t) (t_h t) (t_mi t) (t_s t) (t_ns t) (t_off t)
   else t.
 
+(* strings.ToUpper on ASCII *)
+Definition to_upper_b (b : byte) : byte :=
+  if is_lower b then match Byte.of_N (bN b - 32) with Some c => c | None => b end else b.
+Definition to_upper (s : bytes) : bytes := map to_upper_b s.
+Definition has_pm (l : list lelem) : bool := existsb (fun e => lelem_eqb e LPM) l.
+
+(* time.Parse of the matched text; [retry]: when it fails and the layout has PM, once more on the upper-cased text (the regular
+   expression of P admits am/pm, time.Parse reads the PM element in upper case only; month and weekday names are read in any
+   case). retry = false is Format.Parse before the repair. *)
+Definition go_parse_retry (retry : bool) (elems : list lelem) (m : bytes) : option ptime :=
+  match go_parse elems m with
+  | Some t => Some t
+  | None => if retry && has_pm elems then go_parse elems (to_upper m) else None
+  end.
+
 (* Format.Parse: (Unix seconds, nanosecond) of the parsed time *)
-Definition parse_one (now : now_t) (cf : cfmt) (text : bytes) : option (Z * Z) :=
+Definition parse_one_v (retry : bool) (now : now_t) (cf : cfmt) (text : bytes) : option (Z * Z) :=
   match rx_find (cf_rx cf) text with
   | None => None
-  | Some m => match go_parse (cf_elems cf) m with
+  | Some m => match go_parse_retry retry (cf_elems cf) m with
               | None => None
               | Some t => Some (instant (adjust now cf t))
               end
   end.
+Definition code_ampm_retry : bool := true.
+Definition parse_one : now_t -> cfmt -> bytes -> option (Z * Z) := parse_one_v code_ampm_retry.
 
 (* parser.Parse: the first format that parses, with its index *)
 Fixpoint parse_all_from (i : nat) (now : now_t) (fs : list (option cfmt)) (text : bytes) : option (nat * (Z * Z)) :=
@@ -93,6 +110,18 @@ Fixpoint parse_all_from (i : nat) (now : now_t) (fs : list (option cfmt)) (text 
                      end
   end.
 Definition parse_all (now : now_t) (fs : list (option cfmt)) (text : bytes) := parse_all_from 0 now fs text.
+
+(* the same over a variant of Format.Parse (for the refutation of the variant without the retry) *)
+Fixpoint parse_all_from_v (retry : bool) (i : nat) (now : now_t) (fs : list (option cfmt)) (text : bytes) : option (nat * (Z * Z)) :=
+  match fs with
+  | [] => None
+  | None :: _ => None
+  | Some cf :: tl => match parse_one_v retry now cf text with
+                     | Some r => Some (i, r)
+                     | None => parse_all_from_v retry (S i) now tl text
+                     end
+  end.
+Definition parse_all_v (retry : bool) (now : now_t) (fs : list (option cfmt)) (text : bytes) := parse_all_from_v retry 0 now fs text.
 
 (* ------------------------------------------------------------------ user tokens *)
 
